@@ -32,7 +32,8 @@ class _FloatMeta(type):
 
 
 class Float(metaclass=_FloatMeta):
-    """stand-in for the builtin ``float`` inside cobra modules that call float(value)"""
+    """stand-in for the builtin ``float`` inside cobra modules that call float(value).  numpy / pandas do not accept
+    it as ``dtype=float``; a TypeError naming it is treated like a proxy reaching C code (vsym.run_one)"""
 
 
 def _isinf(x):
